@@ -29,6 +29,15 @@ RECURSIVE NamedOf(_)
 NamedOf(ty) == IF ty[1] = "N" THEN ty[2] ELSE NamedOf(ty[2])
 SeqSet(q) == {q[i] : i \in 1..Len(q)}
 
+\* ---- response-level notions shared by C02/C03/C07 -----------------------------------
+W == INSTANCE Wire
+\* the position nulled by an error: the shortest prefix of its path at which data is null
+RECURSIVE NullPrefix(_, _, _)
+NullPrefix(data, e, k) == IF k > Len(e) THEN e
+                          ELSE LET w == W!Walk(data, SubSeq(e, 1, k)) IN
+                               IF w.found /\ ~w.stoppedAtNull /\ w.v # Null THEN NullPrefix(data, e, k + 1) ELSE SubSeq(e, 1, k)
+NulledPositions(resp) == {NullPrefix(resp.data, resp.errors[k], 0) : k \in 1..Len(resp.errors)}
+
 \* ---- variables -------------------------------------------------------------
 \* CoerceVariableValues: -> [ok, vals: [name -> value]] ; values are Null or [t |-> "i"/"b", v]
 Provided(vars, n) == n \in DOMAIN vars
